@@ -100,8 +100,12 @@ CLAIMED.update({
              "the output names and the arguments by ORIGINAL parameter (the pre-fix key is refuted in Legacy.v); (iii) every reachable "
              "InMemoryCache has unique keys, at most max_size entries, and hits return the latest set (LRU refinement of a partial map); "
              "(iv) for every sequence of complete sets, sets torn between the two writes, and every corruption class, a DiskCache hit returns a "
-             "value stored by a complete set of that key and only such bytes reach the deserialiser. Tied to /repo by LRU/Disk differential "
-             "runs on a real directory with a pickle.loads spy and by cached-vs-uncached program runs over shared backends.",
+             "value stored by a complete set of that key and only such bytes reach the deserialiser; (v) cacheable interrupts: with the cache "
+             "bypassed when the caller supplied the response (CacheInterrupt.v), every call and every history of calls sharing one cache returns "
+             "what the executor returns (C09_interrupt_transparent / _histories); without the bypass the statement is refuted on the model's own "
+             "interrupt executor (C09_interrupt_legacy_refuted, the defect repaired by 16c8ea9). Tied to /repo by LRU/Disk differential "
+             "runs on a real directory with a pickle.loads spy, by cached-vs-uncached program runs over shared backends, and by pause / answer "
+             "histories over a cache=True interrupt.",
         design_ref="DESIGN.md section 5 C09",
         note="SHA-256 / HMAC are idealised as injective tagging, and forged signatures are excluded (op_ok) — Section hypotheses, not "
              "axioms; diskcache/SQLite single-write atomicity and 'no exception' are runtime behaviour, covered by the fault enumeration.",
@@ -232,10 +236,14 @@ CLAIMED.update({
              "documented rule table for type expressions of any depth, with identity / Any / union / generic / subclass / Annotated / TypeVar rules "
              "as equations. Tied to /repo by: every valid generated graph x every flaw class x position (also nested, behind renames applied to "
              "used nodes) against Graph(...), model outcome == real outcome, and is_type_compatible == compat on all ordered pairs of a closed "
-             "type universe.",
+             "type universe. Typed edges that cross nested-graph boundaries are modelled in BoundaryTypes.v (get_input_types / get_output_types "
+             "through renames and map_over, the pairwise edge check): the check passes iff every offered pair is annotated and compatible, a nested "
+             "graph offers exactly one type per inner LEAF consumer / producer at any depth, and the verdict is invariant under permutation of the "
+             "inner node lists (C19_boundary_*); random typed trees: real type lists == model lists, real verdict == edge_ok.",
         design_ref="DESIGN.md section 5 C19",
-        note="A GraphNode's interface (inputs, outputs, defaults, types) is read from the real wrapper; string predicates and issubclass are "
-             "evaluated in Python; errors raised by node constructors themselves are outside the Graph constructor.",
+        note="Inside Validate.v a GraphNode's interface (inputs, outputs, defaults, and the ONE representative type per name) is read from the real "
+             "wrapper; BoundaryTypes.v derives the type LISTS from the inner structure but takes the exposed name sets from the wrapper; string "
+             "predicates and issubclass are evaluated in Python; errors raised by node constructors themselves are outside the Graph constructor.",
         technique="Coq proof (decision procedure <-> declarative well-formedness; fixed-point equation of the type judgement) + exhaustive flaw injection and differential correspondence",
     ),
     "C07": dict(
@@ -281,11 +289,14 @@ CLAIMED["C20"] = dict(
          "EVERY drawing it produces for the generated graphs (every valid expansion state x both output modes of the interactive data, Mermaid "
          "at every depth x both modes) is validated by that checker against ground truth read from the real Graph objects; to_flat_graph, the "
          "state set, build_expansion_state and the producer / consumer maps by visibility (viz/_common.py, modelled in VizMaps.v with theorems on what "
-         "they contain) are compared with the model.",
+         "they contain) are compared with the model. Shared output names: VizProducers.complete_forest restates Graph._edges_from_every_producer "
+         "(a data edge from EVERY producer of a consumed name, at every nesting level) with completeness and soundness theorems "
+         "(C20_every_producer_has_an_edge, C20_only_matches_added); the harness hands the raw nx_graph edges to the model, which completes them.",
     design_ref="DESIGN.md section 5 C20",
     note="partial: faithfulness of the renderer is translation validation per generated drawing by a proved checker, not a theorem about "
-         "renderer code (viz/renderer/*.py, mermaid.py are heuristic and not modelled); known finding F-k (values renamed at container "
-         "boundaries are routed by name). Trusted: the transcription of drawings / Mermaid lines into Viz.drawing literals.",
+         "renderer code (viz/renderer/*.py, mermaid.py are heuristic and not modelled); known findings F-k (values renamed at container "
+         "boundaries are routed by name), F-o (of several producers of one name inside an expanded container only one is drawn) and F-p (a node "
+         "name spelling a nested Mermaid id). Trusted: the transcription of drawings / Mermaid lines into Viz.drawing literals.",
     technique="Coq proof (flattening, state enumeration, checker <-> declarative Faithful) + translation validation of every drawing by the proved checker",
 )
 
